@@ -202,6 +202,11 @@ def judgeC04 (o : Obs) : Verdict :=
       fail lateSpawn s!"a task was spawned into scope {arg e 0}#{inst} after it had ended" ++
       fail (plain && arg e 2 == 0 && !silentAbort && !closedNonVol.isEmpty)
         s!"scope {arg e 0}#{inst} ended normally but closed non-volatile children {closedNonVol.map (·.1)}" ++
+      -- a non-volatile child that nobody cancelled and that never even began, although the block was left normally and the run
+      -- went on to its end: it was closed before its first turn (children spawned during shutdown are waited for as well)
+      fail (plain && arg e 2 == 0 && !silentAbort && o.crash == [] &&
+            kids.any (fun k => k.2 == 0 && (tfin k.1).isNone && !(o.events.any (fun c => c.tag == "cancel" && arg c 0 == k.1))))
+        s!"scope {arg e 0}#{inst} ended normally at {e.time} but a non-volatile child that nobody cancelled never ran to completion" ++
       fail (plain && arg e 2 == 0 && !silentAbort && volClosed.any (fun v => nonVolEnd.any (fun n => n > v)))
         s!"scope {arg e 0}#{inst}: a volatile child was closed before a non-volatile one had finished"
     else [])
